@@ -34,6 +34,14 @@ def gen_cases(rng, tier, rnd):
             c['spec'], c['rank'] = genfa.rename(a, rng)
             c['spec']['dd'] = rng.random() < 0.7
             c['steps'] = [{'n': rng.choice(NS)} for _ in range(3)]
+        elif kind == 'pda' and rng.random() < 0.04:
+            a = genpda.big_closure_pda(rng, depth=rng.choice([9, 10]))
+            c['spec'], c['rank'] = genfa.rename(a, rng)
+            m = max(rpda.closure_sizes(c['spec'], '', 6000)[0])
+            c['steps'] = [{'n': rng.choice([0, 1]), 'limit': rng.choice([m + 5, 3000, 5000, m - 1, 1000])} for _ in range(2)]
+            c['abs'] = hx(a)
+            cases.append(c)
+            continue
         elif kind == 'pda':
             a = genpda.abstract_pda(rng)
             c['spec'], c['rank'] = genfa.rename(a, rng)
@@ -64,7 +72,9 @@ def gen_cases(rng, tier, rnd):
         else:
             k = rng.randint(1, 3)
             t = genrx.tree(rng, rng.randint(0, 8), list('abc'[:k]))
-            m = dict(zip('abc', rng.sample('abcdefghijklmnopqrstuvwxyz', 3)))
+            m = dict(zip('abc', rng.sample(list('abcdefghijklmnopqrstuvwxyz') + ['0', '1'] * 8, 3) if rng.random() < 0.5 else rng.sample('abcdefghijklmnopqrstuvwxyz', 3)))
+            if len(set(m.values())) < 3:
+                continue
             a = t
             c['spec'] = {'kind': 'regexp', 'tree': genrx.rename_tree(t, m)}
             c['rank'] = {}
@@ -75,23 +85,33 @@ def gen_cases(rng, tier, rnd):
 
 
 class ClosureSpy:
-    """Wraps the module global pda_algorithms.pda_epsilon_closure for observation only."""
+    """Wraps the module global pda_algorithms.pda_epsilon_closure for observation only.  A returned set that is not
+    closed under epsilon moves is a *truncation*; it is legitimate only when the exact closure of the argument has
+    more configurations than the configured limit (decided by the reference with a capped search)."""
 
-    def __init__(self, snap):
+    def __init__(self, snap, limit):
         self.snap = snap
+        self.limit = limit
         self.truncated = False
+        self.early = None       # a truncation although the exact closure fits under the limit
         self.calls = 0
         self.orig = pa.pda_epsilon_closure
+        self.moves = rpda._moves(snap)
 
     def __enter__(self):
         def spy(P, R):
+            R = list(R)
             res = self.orig(P, R)
             self.calls += 1
-            if not self.truncated:
+            if self.early is None:
                 try:
                     confs = [(str(r.q), tuple(str(x) for x in r.stack)) for r in res]
                     if not rpda.is_eps_closed(self.snap, confs):
                         self.truncated = True
+                        start = {(str(r.q), tuple(str(x) for x in r.stack)) for r in R}
+                        exact, complete = rpda.closure_capped(self.moves, start, self.limit)
+                        if complete:
+                            self.early = {'closure_size': len(exact), 'limit': self.limit, 'returned': len(confs)}
                 except Exception:
                     self.truncated = True
             return res
@@ -111,6 +131,8 @@ def run_case(case, env):
     nontrivial = False
     if kind == 'regexp':
         sigma = sorted(rrx.symbols(s0['tree']))
+        if set(sigma) & {'0', '1'}:
+            out['probes']['regexp_symbol_0_or_1'] = 1
     else:
         sigma = sorted(s0['Sigma'])
     for step in case['steps']:
@@ -150,12 +172,14 @@ def run_case(case, env):
 
         budget = 3_000_000
         if kind == 'pda':
-            with ClosureSpy(s0) as spy:
+            with ClosureSpy(s0, step['limit']) as spy:
                 r1 = call(env, enum, budget=budget)
                 r2 = call(env, brute, budget=budget)
                 # generate_language must be the same function of the same ambient knob
                 r3 = call(env, lg.generate_language, obj, n, budget=budget)
             truncated = spy.truncated
+            if spy.early:
+                out['viol'].append(viol('closure-truncated-below-limit', 'pda_epsilon_closure', {'step': step, **spy.early}))
         else:
             r1 = call(env, enum, budget=budget)
             r2 = call(env, brute, budget=budget)
